@@ -591,6 +591,35 @@ def _replay_ows(prop, harness, rec):
     return {"status": "not_reproduced", "case": ["ows_history", 2] + ops, "out": o, "detail": "native history satisfies the oracle"}
 
 
+@replayer("c26_sequential_lookups")
+def _replay_c26_seq(prop, harness, rec):
+    r = run_case(["beans_seq"], 30)
+    if "error" in r:
+        return {"status": "unavailable", "detail": r["error"]}
+    o = r["out"]
+    if o is None:
+        return {"status": "reproduced", "detail": f"crash: {r['stderr_tail'][-200:]}"}
+    if not (o["second_lookup_same"] and o["after_init_bean_same"]):
+        return {"status": "reproduced", "out": o, "detail": "a later lookup returned a different instance than the one created first (sequential lookups / init_bean on an existing name)"}
+    return {"status": "not_reproduced", "out": o, "detail": "sequential lookups return one instance"}
+
+
+@replayer("c26_names_that_differ")
+def _replay_c26_names(prop, harness, rec):
+    pos = _int(rec, 0, signed=False)
+    if pos is None or pos >= 40:
+        pos = 39
+    r = run_case(["beans_names", 40, pos], 30)
+    if "error" in r:
+        return {"status": "unavailable", "detail": r["error"]}
+    o = r["out"]
+    if o is None:
+        return {"status": "reproduced", "detail": f"crash: {r['stderr_tail'][-200:]}"}
+    if not (o["different_instances"] and o["stable"]):
+        return {"status": "reproduced", "out": o, "detail": f"two 40-byte names that differ only at byte {pos} were given the same instance"}
+    return {"status": "not_reproduced", "out": o, "detail": "different names gave different instances"}
+
+
 @replayer("c26_")
 def _replay_c26(prop, harness, rec):
     r = run_case(["beans_race", 600, 8], 180)
